@@ -32,12 +32,16 @@ try:
     meta["confirmed"] = (meta["patch_applies"] and d0.returncode == 0 and d1.returncode != 0
                          and bool(re.match(r"83 passed", meta["suite_with_patch"])))
     meta["checks"] = {}
+    # the checks run from a scratch copy of /verif: the mutant's regenerated tables and Lean build never touch /verif
+    vc = f"/tmp/seedverif_{os.getpid()}"
+    run(f"rsync -a --exclude .git --exclude replays --exclude findings --exclude seeded /verif/ {vc}/")
     for c in checks:
-        r = run(f"./check {c} --tier quick", cwd="/verif", env=dict(os.environ, VERIF_REPO=wt))
+        r = run(f"./check {c} --tier quick", cwd=vc, env=dict(os.environ, VERIF_REPO=wt))
         lines = [l for l in r.stdout.split("\n") if re.match(r"(OK|VIOLATION|FAILING-INPUT|BROKEN|HARNESS)", l)]
         meta["checks"][c] = {"exit": r.returncode, "verdict": [l[:300] for l in lines][:4]}
 finally:
     run(f"git -C /repo worktree remove --force {wt}")
+    run(f"rm -rf /tmp/seedverif_{os.getpid()}")
     run("/venv/bin/python /verif/tools/extract.py")
 notes = (src / "notes.md").read_text() if (src / "notes.md").exists() else ""
 m = re.search(r"(?is)(trigger|manifest)[^\n]*\n(.{0,600})", notes)
